@@ -259,7 +259,7 @@ class Deferred:
 DROP_DERIVES = {'IntoBytes', 'Immutable', 'FromBytes', 'KnownLayout', 'Debug', 'Unaligned', 'TryFromBytes'}
 
 
-def rewrite_attrs(attrs, out, name, ms):
+def rewrite_attrs(attrs, out, name, ms, kind='struct'):
     """Filter attributes of a struct/enum (D1, D2, D14, D15).  Returns (attr lines, had_intobytes, had_default)."""
     res = []
     had_ib = False
@@ -294,7 +294,7 @@ def rewrite_attrs(attrs, out, name, ms):
                     if base in ('Immutable', 'FromBytes'):
                         markers.append(base)
                     continue
-                if base == 'Default' and name in ms.defaults:
+                if base == 'Default' and (name in ms.defaults or ('IntoBytes' in [x.split('::')[-1] for x in ds] and kind == 'struct')):
                     had_default = True
                     out.count('D14 derive(Default) -> specified impl')
                     continue
@@ -391,6 +391,29 @@ def enum_info(text, attrs):
         vals.append(nxt)
         nxt += 1
     return dict(width=width, values=vals)
+
+
+def auto_default(text, splicer):
+    """D14: derived Default of a packed struct = every field zero (checked by the generated Kani
+    layout harness: as_bytes(&T::default()) is all zero)."""
+    fields = packed_fields(text)
+    if not fields:
+        return None
+    parts = []
+    for (n, t) in fields:
+        if t in ('u8', 'u16', 'u32', 'u64'):
+            parts.append('r.%s == 0' % n)
+        elif t in ('U16', 'U32', 'U64'):
+            parts.append('r.%s.v == 0' % n)
+        else:
+            m = re.match(r'\[u8;\s*(\d+)\]$', t)
+            if m:
+                parts.append('r.%s@ == zeros(%s)' % (n, m.group(1)))
+            elif re.match(r'[A-Za-z_][A-Za-z0-9_:]*$', t):
+                parts.append('is_zero_image(r.%s.raw())' % n)
+            else:
+                return None
+    return ' && '.join(parts)
 
 
 def auto_raw(text):
@@ -816,7 +839,7 @@ class Splicer:
                     continue
                 out.emit('\n'.join(attrs + [t]))
             elif it.kind in ('struct', 'enum', 'union'):
-                a2, had_ib, had_default = rewrite_attrs(attrs, out, it.name, ms)
+                a2, had_ib, had_default = rewrite_attrs(attrs, out, it.name, ms, it.kind)
                 out.emit('\n'.join(a2 + [it.text[it.decl_off - it.start:] if it.name in ms.private else publicise_struct(it.text[it.decl_off - it.start:], it.kind, out)]))
                 _real_out = out
                 for mk in getattr(rewrite_attrs, 'markers', []):
@@ -843,6 +866,14 @@ class Splicer:
                     else:
                         out.emit('impl IntoBytes for %s {\n    open spec fn raw(&self) -> Seq<u8> { %s }\n    #[verifier::external_body] fn as_bytes(&self) -> &[u8] { unimplemented!() }\n}' % (it.name, raw),
                                  fn='%s::%s::as_bytes' % (mod, it.name), kind='seam')
+                if had_default and it.name not in ms.defaults:
+                    ad = auto_default(it.text[it.decl_off - it.start:], self)
+                    if ad is None:
+                        raise SpliceError('%s: cannot derive a Default specification for packed struct %s' % (mod, it.name))
+                    ms.defaults[it.name] = ad
+                    for pk in self.packed:
+                        if pk['name'] == it.name and pk['module'] == mod:
+                            pk['default_zero'] = True
                 if had_default:
                     out.emit('impl Default for %s {\n    #[verifier::external_body] fn default() -> (r: Self)\n        ensures %s\n    { unimplemented!() }\n}' % (it.name, ms.defaults[it.name]),
                              fn='%s::%s::default' % (mod, it.name), kind='seam')
@@ -891,6 +922,10 @@ class Splicer:
         for w in reserved:
             params = re.sub(r'\b%s\b(?=\s*:)' % w, w + '_v', params)
             out.count('D18 identifier `%s` (Verus builtin type name) renamed' % w)
+        raw_params = re.findall(r'(?:^|[(,\s])r#([a-z_]+)\s*:', params)
+        for w in raw_params:
+            params = re.sub(r'\br#%s\b(?=\s*:)' % w, w + '_v', params)
+            out.count('D18 raw-identifier parameter `r#%s` renamed (Verus/AIR mishandles it)' % w)
         ret = ''
         if sig.ret is not None:
             if spec and (spec.ensures or spec.trusted):
@@ -937,7 +972,7 @@ class Splicer:
             degrade_reason = self.degrade[fq]
         else:
             try:
-                body = self.rewrite_body(it, key, ms, spec, fq, mut_self, reserved)
+                body = self.rewrite_body(it, key, ms, spec, fq, mut_self, reserved, raw_params)
             except SpliceError as e:
                 degrade_reason = str(e)
         if degrade_reason is not None:
@@ -957,9 +992,13 @@ class Splicer:
         rec['gen_start'] = start_line
         rec['gen_end'] = len(out.lines)
 
-    def rewrite_body(self, it, key, ms, spec, fq, mut_self, reserved):
+    def rewrite_body(self, it, key, ms, spec, fq, mut_self, reserved, raw_params=()):
         out = self.out
         body = it.body
+        for w in raw_params:
+            # shorthand field init `r#type,` keeps the field name; other uses become the new name
+            body = re.sub(r'(?<![.\w])r#%s\b(?=\s*[,}])' % w, 'r#%s: %s_v' % (w, w), body)
+            body = re.sub(r'(?<![.\w#])r#%s\b(?!\s*:)' % w, '%s_v' % w, body)
         for w in reserved:
             bm = code_mask(body)
             body = ''.join(w + '_v' if i % 2 else piece for i, piece in enumerate(re.split(r'\b(%s)\b' % w, body)))
